@@ -3,6 +3,7 @@
 
 mod coll;
 mod scen;
+mod values;
 mod view;
 mod vlock;
 
@@ -498,6 +499,9 @@ fn main() {
 				}
 			}
 			writeln!(out, "done").unwrap();
+			out.flush().unwrap();
+		} else if line.starts_with("v ") {
+			writeln!(out, "{}", values::run(&line)).unwrap();
 			out.flush().unwrap();
 		} else {
 			cur.push(line);
